@@ -68,6 +68,9 @@ def batches(tier):
     ]
 
 
+MEAS_OPS = ("MeasureHomodyne", "MeasureHeterodyne")
+
+
 def rnd(r, lo, hi):
     return round(r.uniform(lo, hi), 3)
 
@@ -171,10 +174,12 @@ def generate(seed, tier, batch):
         ops.append({"op": "MeasureHomodyne", "p": [par(3.0)], "m": [starts[j]]})
     r2 = random.Random("c13b:%d" % seed)  # a second stream: later additions do not shift the programs of earlier seeds
     for o in ops:
-        if o["op"] != "MeasureHomodyne" and r2.random() < 0.12:
+        if o["op"] not in MEAS_OPS and r2.random() < 0.12:
             o["dag"] = True  # the hand-written loop applies the inverse gate in every bin
         elif o["op"] == "MeasureHomodyne" and batch in ("loop", "loop-wide") and r2.random() < 0.12:
             o["select"] = rnd(r2, -0.6, 0.6)  # post-selected measurement: every pulse of the band is conditioned on this value
+        elif o["op"] == "MeasureHomodyne" and batch in ("loop", "loop-wide", "history") and r2.random() < 0.12:
+            o["op"], o["p"] = "MeasureHeterodyne", []  # complex outcomes: both quadratures of every pulse of the band
     if nb > 1 and r.random() < 0.3:
         # ... or in another order: the measurement commands act on different modes, so any order is the same program
         tail = ops[-nb:]
@@ -276,7 +281,7 @@ def register_schedule(script, nbins):
     regs = list(range(sum(N)))
     out = []
     for g in range(nbins):
-        out.append({j: regs[o["m"][0]] for j, o in enumerate(script["ops"]) if o["op"] == "MeasureHomodyne"})
+        out.append({j: regs[o["m"][0]] for j, o in enumerate(script["ops"]) if o["op"] in MEAS_OPS})
         regs = rotate_positions(regs, N, script.get("shift", "default"))
     return out
 
@@ -290,7 +295,7 @@ def reference(script, nbins, rotate=True):
 
     N, T = script["N"], script["T"]
     total = sum(N)
-    meas_slots = [j for j, o in enumerate(script["ops"]) if o["op"] == "MeasureHomodyne"]
+    meas_slots = [j for j, o in enumerate(script["ops"]) if o["op"] in MEAS_OPS]
     nmodes = total + nbins * len(meas_slots)
     ref = sf.Program(nmodes)
     pos = list(range(total))
@@ -301,9 +306,9 @@ def reference(script, nbins, rotate=True):
             t = g % T
             for j, o in enumerate(script["ops"]):
                 ps = [script["params"][e["tdm"]][t] if isinstance(e, dict) else e for e in o["p"]]
-                if o["op"] == "MeasureHomodyne":
+                if o["op"] in MEAS_OPS:
                     m = pos[o["m"][0]]
-                    if rotate:
+                    if rotate and o["op"] == "MeasureHomodyne":
                         sfops.Rgate(-ps[0]) | q[m]
                     pulses[(band_of(script, j), g)] = m
                     pos[o["m"][0]] = nxt  # measured and reset: a fresh vacuum mode takes its place
@@ -340,14 +345,14 @@ def execute(script, w):
         return round(0.17 * (k + 1) * (-1) ** k / (1 + 0.05 * k), 6)
 
     def on_call(phase, be, name, a, k, out):
-        if name != "measure_homodyne" or not ctx["observing"]:
+        if name not in ("measure_homodyne", "measure_heterodyne") or not ctx["observing"]:
             return
         if phase == "pre":
-            mode = k.get("mode", a[1] if len(a) > 1 else None)
+            mode = k.get("mode", (a[1] if len(a) > 1 else None) if name == "measure_homodyne" else (a[0] if a else None))
             mode = int(mode[0]) if isinstance(mode, (list, tuple)) else int(mode)
             c = ctx["count"].get(mode, 0)
             ctx["count"][mode] = c + 1
-            ctx["cur"] = {"reg": mode, "k": c}
+            ctx["cur"] = {"reg": mode, "k": c, "het": name == "measure_heterodyne"}
             if k.get("select") is not None:
                 # post-selected: no draw; the value the backend is told to condition on is the event
                 ctx["events"].append({"pulse": pulse_of(mode, c), "mean": None, "var": None, "v": float(k["select"]) / math.sqrt(sf.hbar / 2), "selected": True})
@@ -356,7 +361,7 @@ def execute(script, w):
             ctx["cur"] = None
 
     sched = register_schedule(script, nbins)
-    meas_slots = [j for j, o in enumerate(script["ops"]) if o["op"] == "MeasureHomodyne"]
+    meas_slots = [j for j, o in enumerate(script["ops"]) if o["op"] in MEAS_OPS]
     by_reg = {}
     for g, d_ in enumerate(sched):
         for j in meas_slots:
@@ -379,6 +384,13 @@ def execute(script, w):
         mean = np.asarray(args[0], dtype=float)
         cov = np.asarray(args[1], dtype=float)
         v = inj(j, g)
+        if cur.get("het"):
+            v2 = round(0.13 - 0.6 * v, 6)  # heterodyne: both quadratures are outcomes
+            ctx["events"].append({"pulse": (j, g), "mean": float(mean[0]), "var": float(cov[0, 0]), "v": v, "het": True, "mean2": float(mean[1]), "var2": float(cov[1, 1]),
+                                  "cov12": float(cov[0, 1]), "v2": v2})
+            size = kwargs.get("size", args[2] if len(args) > 2 else None)
+            y = np.array([v, v2])
+            return np.tile(y, (int(size), 1)) if size else y
         ctx["events"].append({"pulse": (j, g), "mean": float(mean[0]), "var": float(cov[0, 0]), "v": v})
         size = kwargs.get("size", args[2] if len(args) > 2 else None)
         y = np.array([v, 0.0])
@@ -596,13 +608,24 @@ def execute(script, w):
                 elif pz[0] in sel_of_band:
                     w.violation("loop", "post-selected-measurement-sampled-instead", {"pulse": pz, "program_select": sel_of_band[pz[0]]}, hist_feats)
                     return
-                elif abs(e["mean"] - m) > tolm or abs(e["var"] - v) > 1e-5 * (1 + v) * big:
+                elif abs(e["mean"] - m) > tolm or (not e.get("het") and abs(e["var"] - v) > 1e-5 * (1 + v) * big):
                     w.violation("loop", "conditional-distribution-of-pulse", {"pulse": pz, "library_mean": e["mean"], "reference_mean": m, "library_var": e["var"],
                                                                               "reference_var": v, "n_conditioned_on": ncond, "history": script["history"]}, hist_feats)
                     return
-                S = ccov[np.ix_(B, B)] + np.diag([EPS2, 1.0 / EPS2])
+                if e.get("het"):
+                    # heterodyne: unit (vacuum) noise on both quadratures; the distribution handed to the generator is two-dimensional
+                    S = ccov[np.ix_(B, B)] + np.eye(2)
+                    if (abs(e["mean2"] - cmu[B[1]]) > tolm or abs(e["var2"] - S[1, 1]) > 1e-5 * (1 + S[1, 1]) * big or abs(e["cov12"] - S[0, 1]) > 1e-5 * (1 + v) * big
+                            or abs(e["var"] - S[0, 0]) > 1e-5 * (1 + v) * big):
+                        w.violation("loop", "conditional-distribution-of-pulse", {"pulse": pz, "heterodyne": True, "library": [e["mean"], e["mean2"], e["var"], e["var2"], e["cov12"]],
+                                                                                  "reference": [float(cmu[B[0]]), float(cmu[B[1]]), float(S[0, 0]), float(S[1, 1]), float(S[0, 1])]}, hist_feats)
+                        return
+                    y_ = np.array([e["v"], e["v2"]])
+                else:
+                    S = ccov[np.ix_(B, B)] + np.diag([EPS2, 1.0 / EPS2])
+                    y_ = np.array([e["v"], 0.0])
                 K = ccov[:, B] @ np.linalg.inv(S)
-                cmu = cmu + K @ (np.array([e["v"], 0.0]) - cmu[B])
+                cmu = cmu + K @ (y_ - cmu[B])
                 ccov = ccov - K @ ccov[B, :]
                 ccov = (ccov + ccov.T) / 2
                 ncond += 1
@@ -614,7 +637,13 @@ def execute(script, w):
             # oracle 4: samples[shot, band, bin] is the outcome of exactly that pulse
             smp = np.asarray(res.samples)
             hb = math.sqrt(sf.hbar / 2)
-            want = np.array([[[inj(j, sh * T + t) * hb for t in range(crop_ref if (final["crop"] and crop_ref) else 0, T)] for j in range(nb)] for sh in range(shots)])
+            het_bands = {band_of(script, j_) for j_, o_ in enumerate(script["ops"]) if o_["op"] == "MeasureHeterodyne"}
+
+            def sample_of(j, g):
+                v_ = inj(j, g)
+                return 0.5 * complex(v_, round(0.13 - 0.6 * v_, 6)) if j in het_bands else v_ * hb  # heterodyne: alpha = (x + i p) / 2 at hbar = 2
+
+            want = np.array([[[sample_of(j, sh * T + t) for t in range(crop_ref if (final["crop"] and crop_ref) else 0, T)] for j in range(nb)] for sh in range(shots)])
             if smp.shape != want.shape or (want.size and np.max(np.abs(smp - want)) > 1e-9):
                 w.violation("samples", "Result.samples[shot, band, bin]", {"got_shape": list(smp.shape), "want_shape": list(want.shape), "got": smp.tolist(), "want": want.tolist(),
                                                                         "history": script["history"]}, hist_feats)
@@ -722,8 +751,8 @@ def shrink(script):
             yield dict(script, history=cand)
     # drop non-measurement ops
     ops = script["ops"]
-    gates = [o for o in ops if o["op"] != "MeasureHomodyne"]
-    meas = [o for o in ops if o["op"] == "MeasureHomodyne"]
+    gates = [o for o in ops if o["op"] not in MEAS_OPS]
+    meas = [o for o in ops if o["op"] in MEAS_OPS]
     for cand in ddmin_list(gates, 0):
         yield dict(script, ops=cand + meas)
     for i, o in enumerate(ops):
@@ -744,6 +773,6 @@ def shrink(script):
     # numeric parameters instead of arrays
     for i, o in enumerate(ops):
         for pi, e in enumerate(o["p"]):
-            if isinstance(e, dict) and o["op"] != "MeasureHomodyne":
+            if isinstance(e, dict) and o["op"] not in MEAS_OPS:
                 o2 = dict(o, p=o["p"][:pi] + [0.4] + o["p"][pi + 1:])
                 yield dict(script, ops=ops[:i] + [o2] + ops[i + 1:])
